@@ -843,3 +843,22 @@ let () = register "c20" (fun line ->
     Printf.sprintf "cx_total=%d cx_destroy=%d cx_active=%d cx_restricted=%d rq_total=%d rq_success=%d rq_failure=%d ||%s || upstream_conserved=1"
       (i s.Stats.cx_total) (i s.Stats.cx_destroy) (i s.Stats.cx_active) (i s.Stats.cx_restricted) (i s.Stats.rq_total) (i s.Stats.rq_success) (i s.Stats.rq_failure)
       (if cmds = [] then " -" else S.concat "" (L.map (fun c -> " " ^ c) cmds)))
+
+(* ---------------- C16: discovery subscriptions ---------------- *)
+let () = register "c16" (fun line ->
+  let st = ref Discovery.dinit in
+  let outs = ref [] in
+  L.iter (fun op ->
+    let num () = n_of_int (int_of_string (S.sub op 1 (S.length op - 1))) in
+    let o = match op with
+      | "up" -> Some Discovery.DStreamUp
+      | "down" -> Some Discovery.DStreamDown
+      | "f" -> Some Discovery.DFlush
+      | _ -> if Stdlib.String.get op 0 = 's' then Some (Discovery.DSubscribe (num ())) else Some (Discovery.DUnsubscribe (num ())) in
+    (match o with Some o -> st := Discovery.dstep false !st o | None -> ());
+    if op = "f" then
+      outs := (match !st.Discovery.stream with
+               | None -> "nostream"
+               | Some sv -> "view=" ^ S.concat "," (L.map string_of_int (L.sort compare (L.map int_of_n sv)))) :: !outs)
+    (L.filter (fun x -> x <> "") (S.split_on_char ' ' line));
+  S.concat " " (L.rev !outs))
